@@ -432,7 +432,7 @@ def _run_pairs(res, name, tier, item):
     seen = {canon.state_hash(s) for s in base.step_states}
     multi_b = [(bi, b) for bi, b in enumerate(base.batches) if b["n"] >= 2]
     capped = sorted({b["n"] for _, b in multi_b if b["n"] > (3 if tier == "quick" else 4)})
-    if capped:
+    if capped and not shard:
         res.cap(f"pairs {name}: batches of {capped} jobs contribute adjacent transpositions only to two-batch deviations")
     for x, (bi, b1) in enumerate(multi_b):
         for bj, b2 in multi_b[x + 1:]:
